@@ -31,15 +31,17 @@ func emit(c *core.Ctx, rs []engb.RuleResult) {
 
 // C10 — $ref is transparent, resolves relative to its document, and may recurse.
 func C10(c *core.Ctx) {
-	c.Explanation = "B-MEMO: CachedLoader.Load is checked as a memo table on its SSA: a comma-ok lookup whose hit branch returns the cached schema with a nil error and " +
-		"cannot reach the inner loader; the miss path forwards (uri, parentURI) unchanged, stores the loaded schema under the same key expression and returns it; " +
-		"B-MEMO:key: the key must be derived from the resolved location (QualifiedFileName), because one *Schema object per file is what definition identity, " +
-		"type sharing and cross-file recursion rest on. B-CYCLE: generateDeclaredType writes declsBySchema and declsByName on a path dominating the recursive " +
-		"generateType call; at each detectCycle call site the returned cleanup is deferred before any call that can recurse into generation; the cleanup " +
-		"closure deletes the very key that was inserted into inScope. B-PARENT: the file name registered through addFile (the base for nested relative $refs) " +
-		"is the command-line path or a QualifiedFileName result at every call site. " +
-		"Decided: these cache/identity/recursion-bookkeeping conditions. Not decided here: inline-vs-ref equality of generated validation (covered for same-file " +
-		"refs by the ref positions of the abstract-interpretation families when those checks are present), symlink/extension probing, type reuse via cmp.Equal."
+	c.Explanation = "A-MEMO (semantic): CachedLoader.Load is interpreted abstractly around a recording in-memory inner loader: the same reference twice = one inner load and the SAME schema object; two different " +
+		"references (also differing only after the last dot, or the same relative spelling used from two directories) = different objects, each loaded once; a failed load is reported and not remembered — " +
+		"one *Schema object per file is what definition identity, type sharing and cross-file recursion rest on. " +
+		"B-QUALIFIED: QualifiedFileName joins a relative name to the directory of the referring file and returns the EvalSymlinks result (possibly through pure path normalisation) on every success path. " +
+		"A-DEDUP: output.getDeclByEqualSchema interpreted on an output with three declarations under one name returns the one whose schema equals the query. " +
+		"B-CYCLE: generateDeclaredType writes declsBySchema and declsByName on a path dominating the recursive generateType call; at each detectCycle call site the returned cleanup is deferred before any call " +
+		"that can recurse into generation; the cleanup closure deletes the very key that was inserted into inScope. B-PARENT: the file name registered through addFile (the base for nested relative $refs) is the " +
+		"command-line path or a QualifiedFileName result at every call site. B-REFCACHE: the cache keyed by the raw $ref text belongs to the per-file generator and is created afresh in newSchemaGenerator. " +
+		"Engine A: every broad-family member at a reference position ($defs, definitions; arrays, enums, compositions as definitions) with the inline-twin filter (an issue counts only if the inlined form does not " +
+		"show it); one definition referenced by two properties yields ONE type (A-SHARE) generated once; multi-file scenarios (cross-file references under three routings, cycles, a typeless self-referential root, " +
+		"same-named definitions in two files differing in one keyword or in a nested reference target). Not decided: symlink/extension probing on a real file system."
 	c.Trust("filepath.Join/Dir/EvalSymlinks behave as documented")
 	a := engb.New(c.Prog)
 	ruleMemo(c) // A-MEMO (semantic); the SSA shape rule B-MEMO fired on an equivalent rewrite of the memo table and was retired
